@@ -87,7 +87,11 @@ def scenarios(c):
             steps = [st for u in units for st in u]
             run = 60 if c.quick else 200
             for i in range(0, len(steps), run):
-                scen.append({"sc": sid, "dir": d, "steps": steps[i:i + run]})
+                chunk = [dict(s) for s in steps[i:i + run]]
+                if len(chunk) > 8 and (i // run) % 2 == 0:
+                    # the efivars directory is configuration, not state of the wrapper: half-way the same objects are pointed at another one
+                    chunk[len(chunk) // 2]["dir"] = "/sys/firmware/efi/efivars" if d else "/run/verif-efivars/other"
+                scen.append({"sc": sid, "dir": d, "steps": chunk})
                 sid += 1
     return scen
 
